@@ -80,7 +80,12 @@ static void st_create(int scope)
     for (i = 0; i < npool; i++) pool[i] = new_elem(i, i % nkeys);
     for (i = 0; i < nlists; i++) {
         cls[i] = mixed ? (i & 1) : 0;
-        cstl_slist_init(&L[i], OFF(cls[i]));
+        /* both documented ways of making a list: the init function and the static initialiser macro */
+        if ((scope >> 21) & 1) {
+            if (cls[i]) L[i] = (struct cstl_slist)CSTL_SLIST_INITIALIZER(L[i], struct elem, node[1]);
+            else L[i] = (struct cstl_slist)CSTL_SLIST_INITIALIZER(L[i], struct elem, node[0]);
+            VRT_COUNT("lists.made-with-initializer-macro");
+        } else cstl_slist_init(&L[i], OFF(cls[i]));
         Mn[i] = 0; lastkind[i] = 0;
     }
 }
@@ -91,6 +96,7 @@ static void st_destroy(void)
 }
 #define SCOPE(nl, nk, np) ((nl) | (nk) << 4 | (np) << 8)
 #define SCOPE_MIXED (1 << 20)
+#define SCOPE_MACRO (1 << 21)
 
 static struct elem *take_free(int key, int c)
 {
@@ -466,7 +472,7 @@ static void run_closure(int ci)
                   s->mixed ? " mixed-node-offsets" : "", is_clear_mode ? " +clear probe in every state" : "");
     model.nprobes = is_clear_mode ? 1 : 0;
     model.probe = st_probe;
-    vex_closure(&model, SCOPE(s->nl, s->nk, s->np) | (s->mixed ? SCOPE_MIXED : 0), al, n, s->max_states, s->max_depth, &r);
+    vex_closure(&model, SCOPE(s->nl, s->nk, s->np) | (s->mixed ? SCOPE_MIXED : 0) | ((ci & 1) ? SCOPE_MACRO : 0), al, n, s->max_states, s->max_depth, &r);
     VRT_COUNT_N("closure.states", r.states);
     VRT_COUNT_N("closure.transitions", r.transitions);
     VRT_COUNT_N("closure.replayed-ops", r.applied);
@@ -486,7 +492,7 @@ static void run_random(uint64_t idx)
     np = (idx % 4 == 0) ? 400 + vrt_below(&g, 112) : 4 + vrt_below(&g, 40);
     nops = vrt_thorough ? 6000 : 1500;
     vrt_case_note("random nlists=%d keys=%d pool=%d ops=%d", nl, nk, np, nops);
-    st_create(SCOPE(nl, nk, np) | (nl > 1 && idx % 3 == 1 ? SCOPE_MIXED : 0));
+    st_create(SCOPE(nl, nk, np) | (nl > 1 && idx % 3 == 1 ? SCOPE_MIXED : 0) | (idx % 2 ? SCOPE_MACRO : 0));
     for (i = 0; i < nops; i++) {
         uint32_t op;
         int l = vrt_below(&g, nl), l2 = vrt_below(&g, nl), k = vrt_below(&g, nk);
